@@ -209,6 +209,31 @@ def _none_only_when_disabled(ctx, fn_path):
     return True, 'helper %s returns None only in the Disabled arm' % fn_path
 
 
+_READS = {}
+
+
+def _reads_the_body(ctx, item, seen=None):
+    """a non-public function of pavex whose family (its closures, the private helpers it calls) reads a body"""
+    if not item.startswith('pavex::') or item in (BB + '::extract', BB + '::_extract_with_limit'):
+        return False
+    if item in _READS:
+        return _READS[item]
+    seen = seen or set()
+    if item in seen:
+        return False
+    seen.add(item)
+    out = False
+    for x in ctx.fb.bodies_of_item(CR, item):
+        for _, t in x.calls():
+            c = callee(t) or ''
+            if c.split('::')[-1].split('<')[0] in BODY_READERS and ('body' in c.lower() or 'Collected' in c or 'Frame' in c):
+                out = True
+            elif _reads_the_body(ctx, strip_generics(c), seen):
+                out = True
+    _READS[item] = out
+    return out
+
+
 BODY_READERS = {'collect', 'frame', 'poll_frame', 'to_bytes', 'into_data', 'data_ref', 'aggregate'}
 
 
@@ -238,8 +263,23 @@ def r2_sole_constructors(ctx):
                     pl = op_place(o)
                     readers = []
                     if pl is not None:
-                        sl, _ = backward_slice(b, pl['l'], Defs(b))
-                        readers = sorted({(c or '').split('::')[-1].split('<')[0] for c, _, _ in slice_calls(sl)} & BODY_READERS)
+                        sl, locs = backward_slice(b, pl['l'], Defs(b))
+                        calls_ = [(c or '') for c, _, _ in slice_calls(sl)]
+                        readers = sorted({c.split('::')[-1].split('<')[0] for c in calls_} & BODY_READERS)
+                        # .. or through a private helper of the crate that does the reading (`buffer_all(body).await`)
+                        readers += sorted({c.split('::')[-1] + '()' for c in calls_ if _reads_the_body(ctx, strip_generics(c))})
+                        if not readers and b.nid != b.nroot and any(1 <= x <= b.raw['argc'] for x in locs | {pl['l']}):
+                            # built inside a closure from the closure's argument (`.map(|bytes| Self { bytes })`): what matters is what the
+                            # enclosing function did before it handed the closure over
+                            for P in ctx.fb.bodies_of_item(CR, b.nroot):
+                                if P is b or P.is_promoted:
+                                    continue
+                                mk = [xb for xb, j, st2 in P.all_assigns() if st2['rv']['k'] == 'agg' and st2['rv'].get('ak') == 'closure'
+                                      and strip_generics(st2['rv'].get('def', '')) == b.nid]
+                                rd = [xb for xb, t2 in P.calls() if (callee(t2) or '').split('::')[-1].split('<')[0] in BODY_READERS
+                                      or _reads_the_body(ctx, strip_generics(callee(t2) or ''))]
+                                if mk and any(P.dominates(r_, m_) for r_ in rd for m_ in mk):
+                                    readers = ['closure argument; the enclosing function read the body first']
                     ctx.ob('C14.R2', 'bytes-are-read-from-the-body|%s' % b.nroot.replace('pavex::request::body::', ''), bool(readers), b.loc(bb, st),
                            'the bytes put into this BufferedBody derive from %s' % (readers or 'NO read of the request body (a constant or an argument)'))
     ctx.floor('C14.R2', 'BufferedBody construction sites', n, 2)
